@@ -35,7 +35,7 @@ def fieldless(rng, did, n, mask):
         mode = rng.choice(["none", "none", "ser", "ts", "both"])
         ser = rng.sample(SC.NAME_LITS, rng.choice([1, 2, 3])) if mode in ("ser", "both") else []
         ts = rng.choice(SC.NAME_LITS) if mode in ("ts", "both") else None
-        v = variant(IG.IDS[i], ser=ser, ts=ts, dis=bool(mask[i]))
+        v = variant(IG.ids_for(did)[i], ser=ser, ts=ts, dis=bool(mask[i]))
         if rng.random() < 0.25:
             disc = (disc if disc is not None else i) + rng.choice([1, 2, 10])
             v["disc"] = [disc]
